@@ -283,9 +283,9 @@ def run(ctx):
         if ctx.n_new(with_input_only=True) >= 3:
             return
     # (iii) continuous / categorical / mixed leaves incl. a constant column
-    for k in range(8 if quick else 80):
+    for k in range(24 if quick else 160):
         rs = np.random.RandomState(np_seed(ctx.sub_rng('cont', k)))
-        nr, nv = int(rs.choice([20, 80, 200])), 3
+        nr, nv = int(rs.choice([20, 80, 200, 7, 33, 171])), 3
         dist = [Gaussian, Uniform, Isotonic, Categorical][k % 4]
         if dist is Categorical:
             X = rs.randint(0, 3, size=(nr, nv)).astype(np.float32)
@@ -293,7 +293,10 @@ def run(ctx):
         else:
             X = (rs.randn(nr, nv) * 2).astype(np.float32)
             if (k // 4) % 2 == 0:
-                X[:, 1] = 1.25
+                # a sensor stuck at one reading: the reading itself is arbitrary (not a dyadic number), as is the number of rows
+                X[:, 1] = [1.25, 0.1, 37.2, 0.7, 98.6, -273.15, 1013.25, 1e-3][(k // 8) % 8]
+            if (k // 2) % 2 == 1:
+                X = X.astype(np.float64)
             dom = [(float(X[:, j].min()), float(X[:, j].max())) for j in range(nv)]
         rep = dict(kind='c04', learner='learn_estimator-' + dist.__name__, data=X.tolist(), constant_column=((k // 4) % 2 == 0))
         try:
@@ -305,6 +308,30 @@ def run(ctx):
         ctx.case('cont:' + dist.__name__, nontrivial_key=('cont', k), sample=dict(dist=dist.__name__, shape=[nr, nv], constant_column=((k // 4) % 2 == 0)))
         ctx.count('leaf-family:' + dist.__name__)
         validate(ctx, root, nv, rep, f'learn_estimator({dist.__name__}) {"with a constant column" if (k // 4) % 2 == 0 else ""}', discrete=False)
+        if ctx.n_new(with_input_only=True) >= 3:
+            return
+    # (iii-a) a reading that never changes (stuck sensor, unit column, padded feature): decimal values in double precision, any row count —
+    # the leaf fitted on such a column is a degenerate but normalised distribution
+    for k in range(40 if quick else 400):
+        rs = np.random.RandomState(np_seed(ctx.sub_rng('stuck', k)))
+        nr = int(rs.randint(3, 220))
+        v = float(np.round(rs.choice([0.1, 0.7, 37.2, 98.6, -273.15, 1e-3, rs.uniform(-300, 1100)]), int(rs.randint(1, 4))))
+        X = np.round(rs.randn(nr, 3) * 2, 2)
+        X[:, int(rs.randint(3))] = v
+        if k % 5 == 4:
+            X[: nr // 2, :] = X[0, :]                  # and many duplicated rows
+        dist = [Gaussian, Uniform][k % 7 == 6]
+        dom = [(float(X[:, j].min()) - 1.0, float(X[:, j].max()) + 1.0) for j in range(3)]
+        rep = dict(kind='c04', learner='learn_estimator-' + dist.__name__, data=X.tolist(), constant_column=True, float64=True)
+        try:
+            root = learn_estimator(X, [dist] * 3, dom, learn_leaf='mle', split_rows='kmeans', split_cols='rdc',
+                                   min_rows_slice=int(rs.choice([30, 1000])), random_state=int(rs.randint(1000)), verbose=False)
+        except Exception as ex:
+            ctx.count('learner-did-not-return')
+            continue
+        ctx.case('stuck:' + dist.__name__, nontrivial_key=('stuck', k), sample=dict(dist=dist.__name__, shape=[nr, 3], value=v))
+        ctx.count('constant-decimal-column-cases')
+        validate(ctx, root, 3, rep, f'learn_estimator({dist.__name__}) on float64 data with a column stuck at {v} ({nr} rows)', discrete=False)
         if ctx.n_new(with_input_only=True) >= 3:
             return
     # (iii-b) mixed leaf families / domains per column with columns that are constant inside clusters (REM_FEATURES below a column split)
